@@ -81,6 +81,12 @@ def hs_s_spec(rng, variant):
         shift = 0.006
         la, lb = 1.24, 0.9
         hs = {"alpha": 0.207, "beta": 0.684, "delta": 7.79}
+    elif variant == "tank":
+        # wave-tank scale: Hs of centimetres to decimetres (absolute differences of 0.005 matter)
+        a, b = float(rng.uniform(0.03, 0.07)), float(rng.uniform(8.0, 30.0))
+        shift = float(rng.choice([0.0, 0.004]))
+        la, lb = float(rng.uniform(0.9, 1.6)), float(rng.uniform(4.0, 12.0))
+        hs = {"alpha": float(rng.uniform(0.02, 0.09)), "beta": float(rng.uniform(0.9, 1.8)), "delta": float(rng.uniform(1.0, 4.0))}
     else:
         a, b = float(rng.uniform(0.02, 0.07)), float(rng.uniform(0.5, 2.5))
         shift = float(rng.choice([0.0, 0.004, 0.01]))
@@ -179,7 +185,7 @@ def gen_cases(tier, seed):
     cases = []
     for i in range(6 if tier == "quick" else 60):
         cases.append({"kind": "transform", "sub": int(rng.integers(1 << 31)), "cost": 0.2})
-    variants = ["windmeier", "nonzero", "random", "random"]
+    variants = ["windmeier", "nonzero", "random", "tank"]
     nm = 8 if tier == "quick" else 80
     for i in range(nm):
         cases.append({"kind": "model", "variant": variants[i % 4], "sub": int(rng.integers(1 << 31)), "cost": 12})
@@ -370,6 +376,19 @@ def _conditional(case, ctx):
         ctx.check("c16.conditional-icdf", bool(np.all(np.abs(Fx - pv) <= e5 + 1e-6)), "conditional_icdf is outside the Monte-Carlo band around the exact conditional quantile", p=pv, exact_cdf_at_result=Fx, eps=e5, **info)
         pc = np.asarray(tm.conditional_cdf(xq, dim, given, random_state=seed + 2), float)
         ctx.check("c16.conditional-cdf", bool(np.all(np.abs(pc - Fx) <= e5 + 1e-6)), "conditional_cdf is outside the Monte-Carlo band around the exact conditional cdf", got=pc, exact=Fx, eps=e5, **info)
+    # batch calls: several conditioning values in ONE call, close to each other in absolute terms; every row has to
+    # follow its own conditional law
+    if D <= eps and dim == 1 and 0.04 <= q <= 0.96:
+        gs = np.array([g, g + 0.004, g + 0.008, max(g - 0.006, g * 0.5)])
+        pv = np.array([0.5, 0.5, 0.5, 0.5])
+        xq = np.asarray(tm.conditional_icdf(pv, dim, gs.reshape(-1, 1), random_state=seed + 5), float)
+        Fb = np.array([float(cdf_tz_given_hs(ref, np.array([xq[k]]), gs[k])[0]) for k in range(len(gs))])
+        e5 = stats.dkw_eps(100000)
+        ctx.check("c16.conditional-icdf-batch", bool(np.all(np.abs(Fb - pv) <= e5 + 1e-6)), "conditional_icdf with several conditioning values in one call: a row does not follow its own conditional law", givens=gs, exact_cdf_at_result=Fb, eps=e5, **info)
+        xs = np.array([float(np.median(smp))] * len(gs))
+        pc = np.asarray(tm.conditional_cdf(xs, dim, gs.reshape(-1, 1), random_state=seed + 6), float)
+        Fe = np.array([float(cdf_tz_given_hs(ref, np.array([xs[k]]), gs[k])[0]) for k in range(len(gs))])
+        ctx.check("c16.conditional-cdf-batch", bool(np.all(np.abs(pc - Fe) <= e5 + 1e-6)), "conditional_cdf with several conditioning values in one call: a row does not follow its own conditional law", givens=gs, got=pc, exact=Fe, eps=e5, **info)
     ctx.sample = {"kind": "conditional", **{k: v for k, v in info.items() if k != "spec"}, "ks": D, "dkw_eps": eps, "probe": _probe_summary()}
 
 
